@@ -268,6 +268,25 @@ def walk(n):
             yield from walk(c)
 
 
+OPAQUE = ("process_job", "make_callback")
+
+
+def walk_inl(ast, n, depth=0):
+    """pre-order walk that also descends, at each call of a static helper defined in self_test.c (other than the
+    per-vector functions, process_job and make_callback, which the shape analysis treats as units), into the helper's
+    body: code moved into a helper is read as if it were still in place"""
+    yield n
+    c = callee(n)
+    if c is not None and c in ast.funcs and c not in OPAQUE and c not in VEC_FUNCS and not c.startswith("self_test") and depth < 4:
+        for a in n.get("inner", [])[1:]:
+            yield from walk_inl(ast, a, depth)
+        yield from walk_inl(ast, ast.funcs[c], depth + 1)
+        return
+    for ch in n.get("inner", []):
+        if isinstance(ch, dict) and ch:
+            yield from walk_inl(ast, ch, depth)
+
+
 def callee(n):
     if n.get("kind") != "CallExpr":
         return None
@@ -293,7 +312,7 @@ def vec_function_shape(ast, fname):
     if f is None:
         fail("function %s not found" % fname)
     seq = []
-    for n in walk(f):
+    for n in walk_inl(ast, f):
         if n.get("kind") == "BinaryOperator" and n.get("opcode") == "=":
             lhs, rhs = strip(n["inner"][0]), strip(n["inner"][1])
             if lhs.get("kind") == "MemberExpr" and lhs.get("name") == "cipher_direction":
@@ -332,7 +351,7 @@ def vec_function_shape(ast, fname):
         fail("%s: first submitted job is not in the encrypt direction" % fname)
     # the corruption itself: <buf>[0] ^= 1 guarded by `make_callback(...) == 0`
     n_x = 0
-    for n in walk(f):
+    for n in walk_inl(ast, f):
         if n.get("kind") == "CompoundAssignOperator" and n.get("opcode") == "^=":
             lhs, rhs = strip(n["inner"][0]), strip(n["inner"][1])
             if lhs.get("kind") != "ArraySubscriptExpr" or strip(lhs["inner"][1]).get("value") != "0" \
@@ -355,7 +374,7 @@ def group_shape(ast, gname):
             continue
         table = typ = vfn = None
         phases = []
-        for m in walk(n):
+        for m in walk_inl(ast, n):
             if m.get("kind") == "VarDecl" and m.get("name") == "v":
                 for r in walk(m):
                     if r.get("kind") == "DeclRefExpr" and r["referencedDecl"]["name"] in TABLES:
@@ -375,7 +394,9 @@ def group_shape(ast, gname):
                 vfn = c
         if table is None or typ in (None, "?") or vfn is None:
             fail("%s: loop not recognised (table=%s type=%s fn=%s)" % (gname, table, typ, vfn))
-        if phases != ["START", "FAIL", "PASS"]:
+        # START comes first; FAIL and PASS are the two exclusive outcomes (their order in the source text, or whether they sit
+        # in a helper, says nothing; which outcome is reported for which result is tied by the harness k20_selftest)
+        if phases[:1] != ["START"] or sorted(phases[1:]) != ["FAIL", "PASS"]:
             fail("%s: loop callbacks are %s, expected START, FAIL, PASS" % (gname, phases))
         if VEC_FUNCS[vfn] != TABLES[table]:
             fail("%s: %s applied to %s" % (gname, vfn, table))
